@@ -435,6 +435,7 @@ impl PacketReceiver {
     }
 }
 
+
 #[cfg(test)]
 mod tests {
     use super::*;
